@@ -714,10 +714,34 @@ func factsOfSource(pk *packages.Package, fd *ast.FuncDecl, src ast.Expr, before 
 	}
 	// guards of the form `if X < 0 { … return }` / `if X == "" { … return }` before the submission
 	s := exprString(src)
+	// a guard speaks about the value submitted only if the variable is not assigned again between
+	// the guard and the submission (seed C13-8: the limit is validated, then replaced by the
+	// cursor's); an assignment inside the guard's own statement precedes its end and does not count
+	var writes []token.Pos
+	ast.Inspect(fd.Body, func(n ast.Node) bool {
+		switch a := n.(type) {
+		case *ast.AssignStmt:
+			for _, l := range a.Lhs {
+				if exprString(l) == s && a.Tok != token.DEFINE {
+					writes = append(writes, a.Pos())
+				}
+			}
+		case *ast.IncDecStmt:
+			if exprString(a.X) == s {
+				writes = append(writes, a.Pos())
+			}
+		}
+		return true
+	})
 	ast.Inspect(fd.Body, func(n ast.Node) bool {
 		ifs, ok := n.(*ast.IfStmt)
 		if !ok || ifs.End() > before || !exits(ifs.Body) {
 			return true
+		}
+		for _, w := range writes {
+			if w > ifs.End() && w < before {
+				return true
+			}
 		}
 		var disj func(e ast.Expr)
 		disj = func(e ast.Expr) {
